@@ -77,3 +77,26 @@ CHECKS["C09"] = {
         "OPT RDATA <= 200 octets, at most one OPT, 0-1 question (what the proxy itself produces and relays)",
     ],
 }
+
+CHECKS["C01"] = {
+    "title": "Malformed input never crashes, hangs or wedges the proxy",
+    "level": "exploration",
+    "level_text": "Hostile byte strings (structure-aware corruptions, hand-written constants, random bytes; coverage-guided native fuzzing in the thorough tier) are fed to every decoder entry point with a watchdog, a cap==len input buffer, and an accept=>re-encodable / no-aliasing / differential oracle inside the target; listener- and upstream-level injection against the real binary checks that the process survives and keeps serving. Exploration; absence of a crash outside the explored inputs is not shown.",
+    "level_note": "A hang is detected up to the 10 s watchdog; native fuzzing is not seedable and therefore thorough-tier only (quick replays the committed corpus).",
+    "technique": "property-based testing (rapid) with structure-aware hostile generators + Go native coverage-guided fuzzing, differential/round-trip oracle in the target",
+    "parts": [
+        {"engine": "P", "pkg": "internal/dnsmsg", "tests": [
+            {"run": "TestVfC01Decoder", "quick": 60000, "thorough": 3200000, "shards_quick": 8, "shards_thorough": 16, "timeout_thorough": 3000},
+            {"run": "TestVfC01Names", "quick": 20000, "thorough": 400000, "shards_quick": 2, "shards_thorough": 4},
+        ]},
+        {"engine": "P", "pkg": "internal/dnsutils", "tests": [
+            {"run": "TestVfC01Frames", "quick": 10000, "thorough": 400000, "shards_quick": 4, "shards_thorough": 16},
+        ]},
+        {"engine": "F", "pkg": "internal/dnsmsg", "tests": [
+            {"run": "FuzzVfC01Unpack", "fuzz": True, "quick": 1, "thorough": 300, "timeout_thorough": 900, "exclusive": True},
+        ]},
+    ],
+    "assumptions": [
+        "inputs of 0..65535 octets; decoder-level checks call the exported entry points directly",
+    ],
+}
